@@ -26,7 +26,7 @@ func runC14(c *Ctx, r *Report) {
 
 	r.Doc("control", "engine positive/negative controls analysed on every run")
 	lockControls(c, r, "control")
-	join := p.Func("", "IPFSLog", "Join")
+	join := p.FuncI("", "IPFSLog", "Join")
 	// R-C14.1
 	nCross := 0
 	for _, e := range le.Edges {
@@ -52,7 +52,7 @@ func runC14(c *Ctx, r *Report) {
 	}
 	// positive instances: calls on the other log made with no log lock held
 	otherParam := paramObj(join, 0)
-	fl := le.flows[join]
+	fl := le.flows[orig(join)]
 	if fl == nil || otherParam == nil {
 		infra("unresolved anchor: Join flow/param")
 	}
@@ -64,7 +64,7 @@ func runC14(c *Ctx, r *Report) {
 	}
 	var accs []acc
 	for _, fn := range AllFnsUnder(join) {
-		f2 := le.flows[fn]
+		f2 := le.flows[orig(fn)]
 		if f2 == nil {
 			continue
 		}
